@@ -76,6 +76,11 @@ theorem C04_reply_is_what_was_sent (s : State) (remote : Remote) (w : Wire) (mon
   simp only [sendInitially, hnc, Bool.false_eq_true, ↓reduceIte, true_and]
   exact storedReply_storeReply s remote w hw hin
 
+theorem fireEmptyAck_noDeliver (s : State) (remote : Remote) (token : Token) :
+    (fireEmptyAck s remote token).2.filter isDeliver = [] := by
+  unfold fireEmptyAck
+  split <;> rfl
+
 /-- **C04 (first arrival: recorded and delivered once).** A request (CON or NON) whose
 (remote, id) is not in the table is handed to the application exactly once, and from then on
 the same (remote, id) counts as duplicate, with the entry expiring `EXCHANGE_LIFETIME` later. -/
@@ -84,27 +89,29 @@ theorem C04_first_arrival (s : State) (remote : Remote) (mcLocal : Bool) (w : Wi
     (hnew : isDup s remote w = false) :
     ((recv s remote mcLocal w).2.filter isDeliver).length = 1 ∧
     HasEntry (recv s remote mcLocal w).1 remote w.mid (s.now + s.cfg.exchangeLifetime) := by
-  have hna : (w.mtype == MType.ack || w.mtype == MType.rst) = false := by
-    rcases ht with h | h <;> simp [h]
+  have hdd : dedupable w = true := by
+    rcases ht with h | h <;> simp [dedupable, hreq, h]
+  have hna : fitsReply w = false := by
+    rcases ht with h | h <;> simp [fitsReply, h]
   have hcn : (w.mtype == MType.con || w.mtype == MType.non) = true := by
     rcases ht with h | h <;> simp [h]
   have hc0 : (w.code == 0) = false := by
     simp only [isRequest, Bool.and_eq_true, decide_eq_true_eq] at hreq
     simp; omega
   constructor
-  · simp only [recv, hnew, Bool.false_eq_true, ↓reduceIte, hreq, hna, recvCode, hc0, Bool.false_and,
+  · simp only [recv, hnew, Bool.false_eq_true, ↓reduceIte, hreq, hdd, hna, recvCode, hc0, Bool.false_and,
       hcn, Bool.and_self, List.nil_append]
-    simp only [processRequest, tokenProcessRequest]
+    simp only [processRequest, tokenProcessRequest, List.filter_append, fireEmptyAck_noDeliver]
     split <;> simp [List.filter_append, isDeliver, List.filter_cons]
   · have h0 : HasEntry ({ s with recent := s.recent ++
         [(⟨remote, w.mid, none, s.now + s.cfg.exchangeLifetime⟩ : Recent)] } : State) remote w.mid
         (s.now + s.cfg.exchangeLifetime) :=
       ⟨_, List.mem_append_right _ (List.mem_singleton.mpr rfl), rfl, rfl, rfl⟩
-    simp only [recv, hnew, Bool.false_eq_true, ↓reduceIte, hreq, hna]
+    simp only [recv, hnew, Bool.false_eq_true, ↓reduceIte, hdd, hna]
     exact recvCode_HasEntry h0 _ _ _
 
 theorem isDup_of_HasEntry {s : State} {remote : Remote} {w : Wire} {x : Nat}
-    (h : HasEntry s remote w.mid x) (hreq : isRequest w.code = true) : isDup s remote w = true := by
+    (h : HasEntry s remote w.mid x) (hreq : dedupable w = true) : isDup s remote w = true := by
   obtain ⟨r, hr, h1, h2, _⟩ := h
   simp only [isDup, hreq, Bool.true_and, List.any_eq_true]
   exact ⟨r, hr, by simp [h1, h2]⟩
